@@ -13,36 +13,57 @@ R2  spec->code: TLC prints every case of the (seed-sampled in quick, wider in th
     operands' backing arrays and the demanded result; the harness builds the operands from those arrays
     with mat's public constructors, calls the method, reads the result through Dims/At and compares bit
     for bit; operands' backing arrays and the receiver's frame must be unchanged.
+MatObj.tla : object-level semantics of the concrete types as scripts (element access and typed setters at
+             every index incl. the illegal ones, structure accessors, transpose wrappers and Untranspose*,
+             DiagView, Do*NonZero, Zero, Reset / ReuseAs*, Grow, Slice*, permutations, Trace / Norm methods,
+             Maybe* and the error values), interpreted step by step against the real types, in the default
+             and the "bounds" build.
+CMat.tla   : the same for CDense and the complex wrappers over Gaussian integers (plus Conj, Copy, CEqual,
+             CEqualApprox).
+MatFormat.tla : the text printed by mat.Formatted as a TLA+ string-building operator of the abstract
+             matrix and the options; every representation of a matrix must print that text.
 """
 import json
 import os
+import threading
 
 GROUPS = [
     # (name, ops, number of shards the enumeration is split into, max dimension in quick tier)
-    ("elementwise", ["Add", "Sub", "MulElem"], 6, 3),
-    ("mul", ["Mul"], 8, 3),
+    ("elementwise", ["Add", "Sub", "MulElem"], 9, 3),
+    ("mul", ["Mul"], 12, 3),
     ("unary", ["Scale", "Apply", "CloneFrom", "Copy", "Pow"], 4, 4),
-    ("stack", ["Stack", "Augment"], 12, 3),
-    ("kron", ["Kronecker"], 8, 3),
-    ("rank", ["RankOne", "Outer"], 8, 3),
-    ("product", ["Product"], 32, 3),
+    ("stack", ["Stack", "Augment"], 18, 3),
+    ("kron", ["Kronecker"], 12, 3),
+    ("rank", ["RankOne", "Outer"], 12, 3),
+    ("product", ["Product"], 48, 3),
     ("vec", ["MulVec", "AddVec", "SubVec", "MulElemVec", "AddScaledVec", "ScaleVec", "CopyVec", "CloneFromVec"], 4, 4),
     ("sym", ["AddSym", "CopySym", "ScaleSym", "SymRankOne", "RankTwo", "SymRankK", "SymOuterK"], 4, 3),
     ("tri", ["ScaleTri", "MulTri", "CopyTri"], 4, 4),
     ("func1", ["Sum", "Max", "Min", "Trace", "Norm1", "NormInf", "Row", "Col", "Dot"], 4, 4),
-    ("func2", ["Equal", "Inner"], 6, 3),
-    ("div", ["DivElem", "DivElemVec"], 8, 3),
+    ("func2", ["Equal", "Inner"], 9, 3),
+    ("div", ["DivElem", "DivElemVec"], 12, 3),
     ("bandvec", ["MulVecTo", "SolveVecTo", "InverseTri", "Det", "Inverse"], 2, 4),
-    ("solve", ["Solve", "SolveVec", "SolveTo"], 8, 3),
+    ("solve", ["Solve", "SolveVec", "SolveTo"], 12, 3),
+    ("diag", ["DiagFrom"], 2, 4),
+    ("approx", ["EqualApprox"], 24, 3),
+    ("productn", ["Product1", "Product2", "Product4"], 24, 3),
 ]
+# MatObj.tla groups: (name, largest dimension quick / thorough, also replayed in the "bounds" build in the quick tier)
+OBJ_GROUPS = [("At", 3, 4, True), ("Set", 3, 4, True), ("Meta", 3, 4, False), ("DiagView", 3, 4, True),
+              ("NonZero", 3, 4, True), ("Zero", 3, 4, False), ("Reset", 3, 4, False), ("Grow", 3, 4, False),
+              ("Slice", 3, 4, False), ("Permute", 3, 4, False), ("Norm", 3, 4, False), ("Errors", 1, 1, False), ("New", 3, 4, False)]
+# CMat.tla groups
+C_GROUPS = [("At", 3, 4, True), ("Chain", 3, 3, False), ("Conj", 3, 4, False), ("Copy", 3, 4, False),
+            ("Shape", 3, 4, False), ("Equal", 2, 3, False)]
+FMT_SHARDS = 4
 # calls with mismatched operand shapes (a shape panic is demanded; Equal answers false)
-MISMATCH = ["Add", "Sub", "MulElem", "Equal", "Mul", "Stack", "Augment", "MulVec", "AddVec", "SubVec", "MulElemVec",
+MISMATCH = ["Add", "Sub", "MulElem", "Equal", "EqualApprox", "Mul", "Stack", "Augment", "MulVec", "AddVec", "SubVec", "MulElemVec",
             "Dot", "AddSym", "SymRankOne", "Trace", "Pow", "RankOne"]
-MISMATCH_SHARDS = 80
+MISMATCH_SHARDS = 120
 
 
 def w_small(name):
-    return name in ("unary", "vec", "sym", "tri", "func1", "bandvec", "rank")
+    return name in ("unary", "vec", "sym", "tri", "func1", "bandvec", "rank", "diag")
 
 
 def tla_set(xs):
@@ -86,7 +107,34 @@ def run(ctx):
         for bn, b in bins.items():
             ctx.replay(b, "matrep", cases, [], name="R2 replay %s shard %d/%d [%s]" % (name, sh, ns, bn))
 
-    ctx.parallel([lambda j=j: one(*j) for j in jobs], width=8)
+    # ---- object-level scripts (MatObj, CMat) and printed text (MatFormat) -----------
+    blk = threading.Lock()      # the bounds build of the quick tier is made by the first job that needs it
+
+    def bounds_bin():
+        with blk:
+            return ctx.build("bounds")
+
+    def obj(spec, area, g, maxn, both):
+        cases = ctx.gen("matrep/%s.tla" % spec, "matrep/%s.cfg" % spec, subst=dict(OPS=tla_set([g]), MAXN=maxn, SEED=ctx.seed),
+                        name="R2 gen %s %s n<=%d" % (spec, g, maxn))
+        todo = dict(bins) if th else ({"default": bins["default"], "bounds": bounds_bin()} if both else {"default": bins["default"]})
+        for bn, b in todo.items():
+            ctx.replay(b, area, cases, [], name="R2 replay %s %s [%s]" % (spec, g, bn))
+
+    def fmtshard(sh, maxn, br, bc):
+        cases = ctx.gen("matrep/MatFormat.tla", "matrep/MatFormat.cfg",
+                        subst=dict(MAXN=maxn, BIGR=br, BIGC=bc, SEED=ctx.seed, SHARD=sh, NSHARDS=FMT_SHARDS),
+                        name="R2 gen MatFormat shard %d/%d" % (sh, FMT_SHARDS))
+        ctx.replay(bins["default"], "matfmt", cases, [], name="R2 replay MatFormat shard %d/%d" % (sh, FMT_SHARDS))
+
+    ojobs = [lambda g=g: obj("MatObj", "matobj", g[0], g[2] if th else g[1], g[3]) for g in OBJ_GROUPS]
+    ojobs += [lambda g=g: obj("CMat", "cmat", g[0], g[2] if th else g[1], g[3]) for g in C_GROUPS]
+    if th:
+        ojobs += [lambda sh=sh: fmtshard(sh, 4, 6, 7) for sh in range(FMT_SHARDS)]
+    else:
+        ojobs += [lambda: fmtshard(ctx.seed % FMT_SHARDS, 3, 5, 6)]
+
+    ctx.parallel([lambda j=j: one(*j) for j in jobs] + ojobs, width=8)
     ctx.notes.append("representation kinds taken from MatRep.tla AllKinds x Wrappers (84 operand representations "
                      "incl. wrappers); see per-stage distinct_operand_representations")
 
@@ -97,11 +145,15 @@ def run(ctx):
         "user types delegating At to the gonum value they wrap, and bit comparison are trusted",
         "all data are small integers, so every sum and product any algorithm forms is exact and the "
         "comparison is bit for bit (signed zeros are identified)",
+        "the script interpreters (matobj.go, cmat.go: method name -> call of that method, comparison of the "
+        "returned values / visited triples / Dims-At value / backing array with what the step demands) and the "
+        "string comparison of matfmt.go are trusted; they contain no matrix arithmetic",
     ]
     return ctx.finish(
         rule="one case = one call of one mat method/function with one representation per operand position "
-             "and one receiver state; non-trivial = some operand is not a plain untransposed Dense or the "
-             "receiver is not the zero value",
+             "and one receiver state, or one script (1-40 method calls on one object and the objects derived "
+             "from it), or one formatted print; non-trivial = some operand is not a plain untransposed Dense, "
+             "the receiver is not the zero value, or a panic is demanded",
         exhaustive=th)
 
 
@@ -110,6 +162,6 @@ def replay(ctx, path):
     one = os.path.join(ctx.work, "one.ndjson")
     with open(one, "w") as fh:
         fh.write(json.dumps(d["failure"]["case"]) + "\n")
-    for t in ("", "safe"):
+    for t in ("", "safe", "bounds"):
         ctx.replay(ctx.build(t), d["area"], one, d["args"], confirm=False)
     return ctx.finish()
